@@ -220,6 +220,7 @@ Step ==
     /\ LET e == Rec[l] IN
        CASE e.op = "Reset" -> snap' = <<>>
          [] e.op \in {"Skip", "EndRun"} -> UNCHANGED snap
+         [] e.op = "Snap" -> snap' = e.st
          [] OTHER ->
                 /\ (IF HasF(e, "fault") THEN TRUE ELSE SOp(e)) = TRUE
                 /\ Strict("R_constant", e, \A i \in DOMAIN e.st : TRUE, <<>>) = TRUE
